@@ -15,7 +15,6 @@ import (
 	"io"
 	"net"
 	"net/http"
-	"net/http/httptest"
 	"net/textproto"
 	"net/url"
 	"os"
@@ -28,7 +27,6 @@ import (
 	"github.com/inbucket/inbucket/v3/pkg/config"
 	"github.com/inbucket/inbucket/v3/pkg/policy"
 	"github.com/inbucket/inbucket/v3/pkg/server"
-	"github.com/inbucket/inbucket/v3/pkg/server/web"
 	"github.com/inbucket/inbucket/v3/pkg/storage"
 	"github.com/inbucket/inbucket/v3/pkg/storage/file"
 	"github.com/inbucket/inbucket/v3/pkg/storage/mem"
@@ -72,28 +70,36 @@ func tail(s string, n int) string {
 
 var angleRe = regexp.MustCompile(`<([^<>\r\n]*)>`)
 
-// AsmChild is the child process: reads the case from stdin, prints the observation fields.
-func AsmChild() {
-	line, _ := bufio.NewReader(os.Stdin).ReadString('\n')
-	in := strings.Fields(line)
-	c := ParseCfg(in[:NFields])
-	stream := vh.U(in[NFields])
-	fail := func(what string, err error) {
-		fmt.Printf("SETUPERR %s\n", vh.HS(what+": "+fmt.Sprint(err)))
-		os.Exit(0)
-	}
+// AsmSys is an assembled server in this process: built by server.FullAssembly from the ENVIRONMENT (as cmd/inbucket
+// does) and started on ephemeral ports; everything is reached through its real listeners.
+type AsmSys struct {
+	Svc     *server.Services
+	Conf    *config.Root
+	WebAddr string
+	cancel  context.CancelFunc
+	dir     string
+}
+
+// AsmStart sets the environment an operator would set for c (everything else keeps its default), assembles and
+// starts the server. The web listener's port is picked beforehand (bind, note, release) because the web server has
+// no address accessor.
+func AsmStart(c Cfg) (*AsmSys, error) {
 	dir, err := os.MkdirTemp(os.Getenv("VERIF_WORKDIR"), "asm")
 	if err != nil {
-		fail("tempdir", err)
+		return nil, fmt.Errorf("tempdir: %v", err)
 	}
-	defer os.RemoveAll(dir)
-	// the environment an operator would set; everything else keeps its default
 	if _, err := c.Load(); err != nil {
-		fail("config", err)
+		return nil, fmt.Errorf("config: %v", err)
 	}
+	l, err := net.Listen("tcp4", "127.0.0.1:0")
+	if err != nil {
+		return nil, err
+	}
+	webAddr := l.Addr().String()
+	l.Close()
 	os.Setenv("INBUCKET_SMTP_ADDR", "127.0.0.1:0")
 	os.Setenv("INBUCKET_POP3_ADDR", "127.0.0.1:0")
-	os.Setenv("INBUCKET_WEB_ADDR", "127.0.0.1:0")
+	os.Setenv("INBUCKET_WEB_ADDR", webAddr)
 	os.Setenv("INBUCKET_WEB_UIDIR", dir)
 	// store field: mem | file, optionally ":<mailbox message cap>" and ":<maxkb>" (memory store size limit)
 	sf := strings.Split(c.Store, ":")
@@ -115,11 +121,11 @@ func AsmChild() {
 	storage.Constructors["memory"] = mem.New
 	conf, err := config.Process()
 	if err != nil {
-		fail("config.Process", err)
+		return nil, fmt.Errorf("config.Process: %v", err)
 	}
 	svc, err := server.FullAssembly(conf)
 	if err != nil {
-		fail("FullAssembly", err)
+		return nil, fmt.Errorf("FullAssembly: %v", err)
 	}
 	ctx, cancel := context.WithCancel(context.Background())
 	ready := make(chan struct{})
@@ -127,22 +133,105 @@ func AsmChild() {
 	select {
 	case <-ready:
 	case err := <-svc.Notify():
-		fail("service failed to start", err)
+		cancel()
+		return nil, fmt.Errorf("service failed to start: %v", err)
 	case <-time.After(20 * time.Second):
-		fail("services not ready", nil)
+		cancel()
+		return nil, fmt.Errorf("services not ready")
 	}
-	addr := svc.SMTPServer.VerifAddr()
+	a := &AsmSys{Svc: svc, Conf: conf, WebAddr: webAddr, cancel: cancel, dir: dir}
+	// the web listener is started asynchronously: wait until it answers
+	for i := 0; i < 200; i++ {
+		if c, err := net.DialTimeout("tcp4", webAddr, time.Second); err == nil {
+			c.Close()
+			break
+		}
+		time.Sleep(10 * time.Millisecond)
+	}
+	return a, nil
+}
+
+// SMTP plays the client's byte stream over the real SMTP port and returns everything the server sent.
+func (a *AsmSys) SMTP(stream []byte) ([]byte, error) {
+	addr := a.Svc.SMTPServer.VerifAddr()
 	if addr == nil {
-		fail("no SMTP address", nil)
+		return nil, fmt.Errorf("no SMTP address")
 	}
 	conn, err := net.Dial("tcp4", addr.String())
 	if err != nil {
-		fail("dial", err)
+		return nil, err
 	}
 	go func() { conn.Write(stream) }()
 	conn.SetReadDeadline(time.Now().Add(60 * time.Second))
 	out, rerr := io.ReadAll(conn)
 	conn.Close()
+	return out, rerr
+}
+
+// Get fetches a path through the real HTTP listener with Go's default client (which offers gzip and
+// decompresses transparently, like a browser).
+func (a *AsmSys) Get(path string) (int, []byte) {
+	req, _ := http.NewRequest(http.MethodGet, "http://"+a.WebAddr+path, nil)
+	req.Header.Add("Accept", "application/json")
+	resp, err := http.DefaultClient.Do(req)
+	if err != nil {
+		return 0, []byte(err.Error())
+	}
+	defer resp.Body.Close()
+	body, _ := io.ReadAll(resp.Body)
+	return resp.StatusCode, body
+}
+
+// GetIdentity is Get without content coding.
+func (a *AsmSys) GetIdentity(path string) (int, []byte) {
+	req, _ := http.NewRequest(http.MethodGet, "http://"+a.WebAddr+path, nil)
+	req.Header.Add("Accept", "application/json")
+	req.Header.Set("Accept-Encoding", "identity")
+	resp, err := http.DefaultClient.Do(req)
+	if err != nil {
+		return 0, []byte(err.Error())
+	}
+	defer resp.Body.Close()
+	body, _ := io.ReadAll(resp.Body)
+	return resp.StatusCode, body
+}
+
+// Shutdown does what main() does after the signal and reports whether it all returned.
+func (a *AsmSys) Shutdown() bool {
+	a.cancel()
+	drained := make(chan struct{})
+	go func() {
+		a.Svc.SMTPServer.Drain()
+		a.Svc.POP3Server.Drain()
+		a.Svc.RetentionScanner.Join()
+		close(drained)
+	}()
+	ok := true
+	select {
+	case <-drained:
+	case <-time.After(20 * time.Second):
+		ok = false
+	}
+	os.RemoveAll(a.dir)
+	return ok
+}
+
+// AsmChild is the child process: reads the case from stdin, prints the observation fields.
+func AsmChild() {
+	line, _ := bufio.NewReader(os.Stdin).ReadString('\n')
+	in := strings.Fields(line)
+	c := ParseCfg(in[:NFields])
+	stream := vh.U(in[NFields])
+	fail := func(what string, err error) {
+		fmt.Printf("SETUPERR %s\n", vh.HS(what+": "+fmt.Sprint(err)))
+		os.Exit(0)
+	}
+	sys, err := AsmStart(c)
+	if err != nil {
+		fail("assembly", err)
+	}
+	conf := sys.Conf
+	out, rerr := sys.SMTP(stream)
 	status := "ok"
 	if rerr != nil {
 		status = "err:" + vh.HS(rerr.Error())
@@ -201,7 +290,7 @@ func AsmChild() {
 	sort.Strings(keys)
 	var boxes []string
 	for _, n := range keys {
-		code, body := routerGet("/api/v1/mailbox/" + url.PathEscape(n))
+		code, body := sys.Get("/api/v1/mailbox/" + url.PathEscape(n))
 		if code != 200 {
 			boxes = append(boxes, vh.HS(n)+"=HTTP"+fmt.Sprint(code))
 			continue
@@ -220,26 +309,13 @@ func AsmChild() {
 		}
 		var ms []string
 		for _, h := range hdrs {
-			_, src := routerGet("/api/v1/mailbox/" + url.PathEscape(n) + "/" + url.PathEscape(h.ID) + "/source")
+			_, src := sys.Get("/api/v1/mailbox/" + url.PathEscape(n) + "/" + url.PathEscape(h.ID) + "/source")
 			ms = append(ms, strings.Join([]string{vh.HS(h.Subject), fmt.Sprint(h.Size), vh.H(MaskTimestamp(src, n))}, ":"))
 		}
 		boxes = append(boxes, vh.HS(n)+"="+strings.Join(ms, "/"))
 	}
-	cancel()
-	drained := make(chan struct{})
-	go func() { svc.SMTPServer.Drain(); svc.POP3Server.Drain(); svc.RetentionScanner.Join(); close(drained) }()
-	select {
-	case <-drained:
-	case <-time.After(20 * time.Second):
+	if !sys.Shutdown() {
 		status = "drain-timeout"
 	}
 	fmt.Println(strings.Join([]string{join(ReplyTokens(out)), mt, rt, join(hs), join(boxes), status + ";" + env.IPTable()}, " "))
-}
-
-func routerGet(path string) (int, []byte) {
-	req, _ := http.NewRequest(http.MethodGet, "http://localhost"+path, nil)
-	req.Header.Add("Accept", "application/json")
-	w := httptest.NewRecorder()
-	web.Router.ServeHTTP(w, req)
-	return w.Code, w.Body.Bytes()
 }
